@@ -68,6 +68,8 @@ def match_exhaustive(ctx, f, subject, lo, hi, rule="R-GUARD"):
     res = flw.flow(f.node)
     falls_to_raise = bool(res.raises) and not res.falls_off_end
     ok = cases == set(range(lo, hi + 1)) and falls_to_raise
+    if not cases:
+        ok = None  # no match / if-chain on the subject at all (a dispatch table, a helper): not decided by this rule
     ctx.ob(rule, f, f"`{subject}` handled for {lo}..{hi}, anything else raises", ok,
            f"{len(cases)} cases and a final raise" if ok else f"cases {sorted(cases)}; falls through to raise: {falls_to_raise}")
 
